@@ -686,11 +686,16 @@ class System:
         if not del_childs and childs[eidx] != -1:
             orail = self._g.attrs["rails"][name]
             for c in childs[eidx]:
-                self._g.attrs["pnames"][c] = [
+                pnew = [
                     self._g[parents[eidx][0]]._params["name"]
                     if (pn == name or (orail != "" and pn == orail))
                     else pn
                     for pn in self._g.attrs["pnames"][c]
+                ]
+                # a PMux that already listed the new parent keeps a single entry for it
+                ridx = [self._get_index(pn) for pn in pnew]
+                self._g.attrs["pnames"][c] = [
+                    pn for i, pn in enumerate(pnew) if ridx[i] not in ridx[:i]
                 ]
         # delete node
         self._g.remove_node(eidx)
